@@ -11,6 +11,7 @@ import (
 func init() {
 	register(&PropDef{ID: "C19", Title: "Template providers: layered definitions, isolated views, cache-transparent", Rules: rulesC19,
 		Explanation: "Decided for both ghprovider.Provider and gtprovider.Provider (sibling implementations must agree): R1 the cache maps (layouts, views) are read and written only under their own mutex — reads included, so concurrent first requests cannot hit 'concurrent map read and map write'; R2 every template handed to the loader (and so to Parse) originates from Clone() or template.New in that build step, never from a cache or from another layer's shared template; R3 the view layer is cloned from Layout(...)'s result and the layout layer from Base()'s; R4 every store into a cache is on the isCached edge, stores a value the builder then returns, and no error return is reachable after it (a half-built template is never cached); the view cache key separates layout and view name by a non-empty constant; R5 the lock order view -> layout -> base is acyclic. " +
+			"Added in round 2: R1 also requires that no method of a provider has a value receiver (that would lock a copy of the mutexes while the maps stay shared); R6 the walker that feeds the template loaders looks at entry names only to recognise '.'/'..' and leaves its listing loop early only with a non-nil error (a nested directory does not hide the entries after it). " +
 			"NOT decided: equivalence of rendered output with a reference renderer; html/template's own escaping state.",
 	})
 }
@@ -53,6 +54,8 @@ func rulesC19(c *Ctx) {
 		if k < 4 {
 			c.Bad("R1", short+" cache accesses", 0, fmt.Sprintf("only %d accesses to the cache maps found (>= 4 expected); cannot certify", k))
 		}
+		// the provider's mutexes are never copied with the object (value receivers)
+		ruleNoLockCopy(c, "R1", []*types.Named{T})
 		// ---- R2 / R3 ----
 		loaderCalls := 0
 		for _, f := range fns {
@@ -221,6 +224,9 @@ func rulesC19(c *Ctx) {
 		c.Bad("anchor", "both providers", 0, "fewer than two providers analysed")
 	}
 	_ = types.Typ
+
+	// ---- R6 the walker that feeds the template loaders visits every entry ----
+	c.Floor("R6", ruleWalkersVisitAll(c, "R6"), 2)
 }
 
 // resolveTop: look through loads of spilled locals.
